@@ -104,7 +104,7 @@ func Modify(node Node, f func(Node) (Node, bool)) (Node, bool) { //nolint:funlen
 			if !ok {
 				return nil, false
 			}
-			newNode.Parameters[i] = id.(*Identifier)
+			newNode.Parameters[i] = id // (may have been replaced, e.g. by a register)
 		}
 		nb, ok := Modify(node.Body, f)
 		if !ok {
@@ -196,7 +196,7 @@ func Modify(node Node, f func(Node) (Node, bool)) (Node, bool) { //nolint:funlen
 			if !ok {
 				return nil, false
 			}
-			newNode.Parameters[i] = id.(*Identifier)
+			newNode.Parameters[i] = id // (may have been replaced, e.g. by a register)
 		}
 		nb, ok := Modify(node.Body, f)
 		if !ok {
